@@ -851,8 +851,15 @@ Varable failures: {var_failed}
             newlayf = layf.applyAlongDimensions(lay=kwds['LAY'])
             nlayb = newlayf.variables['lay_bounds']
             outf.VGLVLS = np.append(nlayb[:, 0], nlayb[:, 1]).view(np.ndarray)
+        if 'TSTEP' in kwds:
+            # date and time flags are not quantities; applying the function
+            # to them is meaningless, so TFLAG is regenerated from
+            # SDATE, STIME and TSTEP for the new number of steps
+            outf.updatemeta()
+            outf.updatetflag(overwrite=True)
         outf.updatemeta()
         return outf
+
 
     def stack(self, other, stackdim):
         """
